@@ -272,7 +272,8 @@ func c03Paths(c *Ctx, m *searchModel) {
 					drawFact, drawKnown = f.Truth, true
 				}
 			}
-			if working && !(drawKnown && !drawFact) {
+			atRoot, rootKnown := rootFact(st)
+			if working && !(drawKnown && !drawFact) && !(rootKnown && atRoot) {
 				badT = "evaluates the node (table probe / leaf / moves) without first establishing that the game is not already drawn [" + st.FactsString() + "]"
 			}
 			if drawKnown && drawFact {
